@@ -303,6 +303,29 @@ UNITS["poller_glue"] = {
     "timeout_quick": 600,
 }
 
+UNITS["rpc_dispatch"] = {
+    "kind": "kani",
+    "crate": "harness/rpc_dispatch",
+    "harness_mod": "dispatch::verif_contracts",
+    "kani_flags": [],
+    "sources": ["datacake-rpc/src/net/server.rs"],
+    "slice": [{
+        "mode": "items", "src": "datacake-rpc/src/net/server.rs", "out": "dispatch.rs",
+        "prelude": "/verif/harness/rpc_dispatch/src/prelude.rs",
+        "deasync": True,
+        "items": [{"kind": "fn", "name": "try_handle_request"}],
+        "append": ['#[cfg(kani)] #[path = "/verif/harness/rpc_dispatch/src/contracts.rs"] mod verif_contracts;'],
+    }],
+    "extraction": "fn try_handle_request cut verbatim from net/server.rs; `async`/`.await` deleted; `format!` (text of the refusal) shadowed by an opaque message",
+    "functions": ["try_handle_request (net/server.rs)"],
+    "assumptions": [
+        "ServerState::get_handler is linked by contract (recording stand-in answering arbitrarily); the real registry is unit rpc_registry",
+        "http::Request/Parts/Uri/HeaderMap, hyper::Body, crate::body::Body, crate::Status are stand-ins carrying opaque identities; Status keeps the error CODE, the refusal text (format!) is opaque",
+        "hyper connection handling, handle_connection/handle_message (response framing) and the handler's own decoding (C12) are outside this unit",
+    ],
+    "timeout_quick": 600,
+}
+
 UNITS["clock"] = {
     "kind": "kani",
     "crate": "harness/clock",
@@ -496,6 +519,13 @@ for _n, _d, _t in (("reg_add_k0", "one key (URI 0)", "quick"), ("reg_add_k01", "
     _k(_n, "rpc_registry", "B", "ServerState::add_handlers",
        "adding " + _d + " to any service from any state satisfying I (a key is unowned or already owned by that service): the added handlers are served under the "
        "service, keys recorded under it (including keys it had before), everything else unchanged, I preserved", bound=_RB, tier=_t)
+_k("dp_dispatch", "rpc_dispatch", "P", "try_handle_request (net/server.rs)",
+   "for ANY path (<= 15 ASCII bytes), any registry answer, any handler reply: the registry is asked exactly once for the request's own path byte for byte; a handler exists => it runs exactly "
+   "once on this request's peer address, headers and body and its reply or error is returned unchanged; none => Status::unavailable (unknown service) and no handler runs")
+for _i, _p in enumerate(("/svc/msg", "/m/v1/s5/P", "//ping/M", "/", "", "noslash", "/a/b/", "/s/m?x=1")):
+    _k(f"dp_path_{_i}", "rpc_dispatch", "B", "try_handle_request (net/server.rs)",
+       f"the same contract on the concrete path {_p!r} (service/message names containing '/', empty segments, no leading slash, empty path, query suffix are all dispatched by the registry's answer alone)",
+       bound="one concrete path")
 _k("reg_remove_step", "rpc_registry", "B", "ServerState::remove_handlers",
    "from any state satisfying I: exactly the removed service's handlers disappear (none left behind), every other service keeps every handler, I preserved", bound=_RB)
 
@@ -522,6 +552,12 @@ _k("ac_on_multi_del", "actor", "B", "KeyspaceActor::on_multi_del", "same contrac
 _k("ac_on_purge", "actor", "B", "KeyspaceActor::on_purge_tombstones",
    "<= 2 tombstones: a tombstone leaves the set iff it left storage (failed removals re-added); only tombstones older than the cut-off; live documents untouched",
    bound="|dead| <= 2")
+
+_k("ac_on_diff", "actor", "B", "KeyspaceActor::on_diff",
+   "the reply is exactly the difference the set computes against the peer's state (contract os_diff_list, linked through SpecSet): modifications = the peer's live entries this "
+   "replica lacks, removals = the peer's tombstones it lacks (whether it holds the key live, as an older tombstone, or not at all), each with the peer's stamp, nothing dropped or added; "
+   "the replica is unchanged",
+   bound="peer state <= 1 live entry + <= 1 tombstone; own state arbitrary")
 
 # ---- unit group
 _GL = ("every stored row is replayed exactly once, in timestamp order, through source 0 into the set handed (via load_states) to that keyspace, and nothing else is "
@@ -614,7 +650,7 @@ PROPERTIES = {
         "level": "proof", "explanation": "", "assumptions": [],
     },
     "C05": {
-        "obligations": ["os_lacks", "os_diff_list", "os_diff_list_3", "os_insert_contract", "os_delete_contract", "pg_handle_removals", "pg_handle_modified", "lemmas_repair"],
+        "obligations": ["os_lacks", "os_diff_list", "os_diff_list_3", "ac_on_diff", "os_insert_contract", "os_delete_contract", "pg_handle_removals", "pg_handle_modified", "lemmas_repair"],
         "level": "proof", "explanation": "", "assumptions": [],
     },
     "C08": {
@@ -672,7 +708,7 @@ PROPERTIES = {
                         "what is proved is the frame contract of the code in /repo"],
     },
     "C13": {
-        "obligations": ["reg_lookup", "reg_remove_step"],
+        "obligations": ["reg_lookup", "reg_remove_step", "dp_dispatch"] + [f"dp_path_{i}" for i in range(8)],
         "level": "other",
         "explanation": "bounded contract checking (class B): one add/remove step from an ARBITRARY registry state satisfying the invariant, "
                        "within 3 services x 2 keys over 4 URIs -- an inductive step, so it covers every add/remove history inside that size; "
